@@ -18,6 +18,20 @@ def run_one(pid, tier, repo, quiet=False, out_dir=None):
         mod = importlib.import_module('vf.props.' + pid.lower())
         prog = Program(repo)
         mod.run(ck, prog, tier)
+        if tier == 'thorough' and not os.environ.get('VERIF_NO_AUDIT'):
+            # mutation-adequacy audit: the property's self-test variants applied to scratch copies
+            # of the current tree (recorded in the evidence; never changes the verdict)
+            from . import selftest
+            try:
+                a = selftest.audit(pid, repo)
+                ck.extra['mutation_audit'] = a
+                if a.get('variants'):
+                    print('%s audit: %d variants of the current tree: %d breaking ones reported, %d '
+                          'preserving ones silent, %d stale, %d unexpected' % (
+                              pid, a['variants'], a['breaking_variants_reported'],
+                              a['preserving_variants_silent'], a['stale'], len(a['unexpected'])))
+            except Exception as exc:  # the audit is auxiliary
+                ck.extra['mutation_audit'] = {'error': '%s: %s' % (type(exc).__name__, exc)}
         return ck.finish()
     except AnalysisError as exc:
         if ck.violations:
